@@ -101,7 +101,7 @@ def run(ck):
               "Go float64 -> int conversion of an out-of-range value yields -2^63 (amd64)")
     ck.trusted("harness/C18/c18_test.go (in-package overlay), props/C18.py generators, RFC 3339 rendering/parsing in Python",
                "correspondence evaluated by vm_compute in a generated cases file")
-    ck.coq_stage(GROUP, theorems=["C18_roundtrip_partial", "C18_current_schema", "C18_int_refuted", "C18_int_max_refuted", "C18_old_refuted",
+    ck.coq_stage(GROUP, theorems=["C18_roundtrip_full", "C18_current_schema_full", "C18_roundtrip_partial", "C18_current_schema", "C18_int_refuted", "C18_int_max_refuted", "C18_old_refuted",
                                    "C18_stale_schema_refuted"])
 
     ok, binp = vf.go_test_build(ck.work, "internal/server/tables",
@@ -338,13 +338,14 @@ def run(ck):
     pre.append("Fixpoint bad_chains (p : bool) (l : list (list top * list Z)) (i : nat) : list nat := match l with [] => [] | (h, w) :: r => "
                "if zl_eqb (chain_reads p tinit None h) w then bad_chains p r (S i) else i :: bad_chains p r (S i) end.")
     ok, res = vf.coq_eval(GROUP, ck.work, "cases", "\n".join(pre),
-                          {"ints": "bad_ints icases 0", "ts": "bad_ts true tcases 0", "tsold": "bad_ts false tcases 0",
+                          {"ints": "bad_ints_n true icases 0", "intsold": "bad_ints icases 0", "ts": "bad_ts true tcases 0", "tsold": "bad_ts false tcases 0",
                            "chains": "bad_chains true chains 0", "chainsold": "bad_chains false chains 0"})
     if not ok:
         ck.violation("correspondence-eval", "model evaluation failed:\n" + res[-1500:], replay={"log": res[-3000:]}, found_input=False)
         return
     ck.cov["traces_validated_against_impl"] = len(ip) + len(tp) - len(res["ints"]) - len(res["ts"])
     ck.cov["input_distribution"]["instants_where_old_model_differs"] = len(res["tsold"])
+    ck.cov["input_distribution"]["ints_where_float64_decoding_model_differs"] = len(res["intsold"])
     ck.cov["traces_validated_against_impl"] += len(mchains) - len(res["chains"])
     ck.cov["input_distribution"]["chains"] = len(chains)
     ck.cov["input_distribution"]["chains_where_stale_cache_model_differs"] = len(res["chainsold"])
